@@ -112,8 +112,23 @@ def lp_run(text, argv, getters=('get_results',), faults=None, time_limit=None, c
             try:
                 # the documented pass-through parameter `threads` must not matter: one run in four asks for two threads
                 threads = 2 if (len(text) + sum(map(len, argv))) % 4 == 0 else None
-                s.solve(msg=False, timeLimit=time_limit, threads=threads, write=False)
+                # ... and neither may `write` (a debugging dump of the problem as model.lp in the working directory):
+                # one run in five asks for it, from inside the scratch directory
+                write = (len(text) + 3 * len(argv)) % 5 == 2
+                if write:
+                    cwd = os.getcwd()
+                    os.chdir(os.environ.get('VERIF_WORK') or C.WORKROOT)
+                try:
+                    s.solve(msg=False, timeLimit=time_limit, threads=threads, write=write)
+                finally:
+                    if write:
+                        try:
+                            os.unlink('model.lp')
+                        except OSError:
+                            pass
+                        os.chdir(cwd)
                 out['threads'] = threads
+                out['write'] = write
                 out['status'] = s.model.pulp_status
                 out['info'] = s.model.info_string
             except BaseException as e:  # noqa
